@@ -15,7 +15,8 @@ from sx import tag
 from suite_json import impl_write, same_spec
 from suite_glencoe import equivalent
 
-XML_NAMES = ("plain", "space", "punct", "keyword", "lead", "nonascii", "quote", "xmlspecial", "long")
+XML_NAMES = ("plain", "space", "punct", "keyword", "lead", "nonascii", "quote", "xmlspecial", "long", "xmlcontrol")
+gen.NAME_CLASSES["xmlcontrol"] = ["tab\there", "new\nline", "trail\n", "\tlead", "two\n\nlines"]
 gen.NAME_CLASSES["xmlspecial"] = ["<a&b>", "a>b", "&amp;", "back\\slash", "]]>", "<!--", "a\"b'c", "x=\"1\""]
 FIDE_OPS = ["NOT", "AND", "OR", "IMPLIES", "EQUIVALENCE", "REQUIRES", "EXCLUDES"]
 
